@@ -18,7 +18,7 @@ BOUND = ("dimension 1..4; two start data sets per case with 0..20 samples each (
          "revert_scaling, shuffle, move_boundaries_to_front, split_labels, split_pieces (percentage in [0,1.2]), split_without_labels, "
          "remove_samples (distinct valid indices / lists containing an index <0, ==length or >length), concatenate (any two live sets, "
          "also a set with itself), copy, split_labels+DataSet.list_concatenate; every operation may target any of the <= 8 live sets "
-         "(start sets and sets produced by earlier operations); plus 12 directed sequences per dimension; a third of the random cases are 'scaling-focused' (only scalings/shifts/factors/reverts/permutations/copies on one set, closed by revert_scaling). Scaling operations are not "
+         "(start sets and sets produced by earlier operations); plus 15 directed sequences per dimension; a third of the random cases are 'scaling-focused' (only scalings/shifts/factors/reverts/permutations/copies on one set, closed by revert_scaling). Scaling operations are not "
          "applied to empty sets and revert_scaling only to scaled sets (outside the property); exceptions of sample-moving operations "
          "with an EMPTY operand are tolerated if nothing is modified")
 RULE = BOUND + ("; one case = (two start sets, operation list with all parameters and the numpy seed for shuffle); non-trivial = at least "
@@ -35,7 +35,8 @@ CLAUSES = {
     "B.move.attributes": "the public scaling attributes (is_scaled, scaling range, scaling factor, original min, original max) of every produced set equal "
                          "those of the operand, and in-place sample-moving operations do not change them",
     "B.frame.others": "an operation applied to one data set leaves the multiset of (sample,label) pairs of every OTHER live data set exactly unchanged "
-                      "(labels stay attached to their samples also where arrays are shared)",
+                      "(labels stay attached to their samples also where arrays are shared); the witness class names how the two sets are related "
+                      "(split piece / scaled copy / sets that hold separate arrays in the unchanged tree)",
     "B.concat.refused": "concatenate of two non-empty sets whose is_scaled flag, scaling range or scaling factor differ raises and modifies neither operand",
     "B.remove.rejected": "remove_samples with an index <0, ==length or >length in the list raises and leaves samples, labels and attributes unchanged",
 }
@@ -115,11 +116,20 @@ def match_pairs(got, ref, tol):
 
 
 class Entry:
-    def __init__(self, ds, scaled=False, ref=None, tainted=False):
+    def __init__(self, ds, scaled=False, ref=None, tainted=False, src=None, via="own"):
         self.ds = ds
         self.scaled = scaled      # model of the scaled flag
         self.ref = ref            # list of (sample,label) pairs revert_scaling has to restore, or None (nothing promised)
         self.tainted = tainted    # scaling attributes were changed by an operation on ANOTHER data set
+        # model of the label storage (only used to NAME the path of a B.frame.others violation, never to excuse one): entries with the
+        # same token hold the same label array in the unchanged tree (copy() is shallow, split_pieces hands out views; scale_factor,
+        # shift_value, revert_scaling, move_boundaries_to_front keep the array; every other operation builds a new one)
+        self.tok = src.tok if src is not None else object()
+        self.via = ("split" if (via == "split" or src.via == "split") else "copy") if src is not None else "own"
+        self.renewed_by = "construction"
+
+    def renew(self, by):
+        self.tok, self.via, self.renewed_by = object(), "own", by
 
 
 # ------------------------------------------------------------------------------------------- one case
@@ -260,7 +270,8 @@ def apply_op(ctx, DataSet, pool, d, op):
             ctx.check("B.move.attributes", not bad, s2, "attrs", "operand %s, result %s" % (A0, bad[:1]))
             for o in out:
                 new_entries.append(Entry(o, scaled=e.scaled, ref=(list(e.ref) if (kind == "copy" and e.ref is not None) else None),
-                                         tainted=e.tainted if kind == "copy" else False))
+                                         tainted=e.tainted if kind == "copy" else False,
+                                         src=e if kind in ("copy", "split_pieces") else None, via="split" if kind == "split_pieces" else "copy"))
             if kind == "split_labels_join":
                 try:
                     with quiet():
@@ -341,6 +352,8 @@ def apply_op(ctx, DataSet, pool, d, op):
     else:
         raise ValueError("unknown op %s" % kind)
 
+    if kind in ("scale_range", "shuffle", "remove_samples") and not (kind == "scale_range" and empty):
+        e.renew(kind)
     # frame: every other live data set keeps its pairs; note attribute changes by foreign operations (classification of revert failures)
     for q, (pq, aq) in zip(pool, before_all):
         if any(q is c for c in covered):
@@ -348,7 +361,13 @@ def apply_op(ctx, DataSet, pool, d, op):
         now = pairs(q.ds, d)
         if multiset(now) != multiset(pq):
             same_samples = [x for x, _ in now] == [x for x, _ in pq]
-            wc = "labels-permuted-through-shared-array" if (kind == "move_boundaries_to_front" and same_samples) else "other-set-changed"
+            if kind == "move_boundaries_to_front" and same_samples:
+                if e.tok is q.tok:      # label array shared in the unchanged tree as well: name the path
+                    wc = "labels-permuted-through-shared-array" if "split" in (e.via, q.via) else "labels-shared-with-scaled-copy"
+                else:                   # the two sets hold separate label arrays in the unchanged tree
+                    wc = "labels-shared-unexpectedly-after-%s+%s" % tuple(sorted((e.renewed_by, q.renewed_by)))
+            else:
+                wc = "other-set-changed"
             ctx.check("B.frame.others", False, site, wc, "%s on one set changed another live set: %s -> %s" % (kind, pq[:4], now[:4]))
             q.ref = None        # reported here; the corrupted set is no longer a valid witness for revert_scaling
         else:
@@ -452,6 +471,9 @@ def directed(d):
         [o("remove_bad", 0, good=[0.1], bad=[["len", 1]]), o("remove_bad", 0, good=[], bad=[["neg", 1]]), o("remove_bad", 1, good=[0.5, 0.7], bad=[["over", 1]]),
          o("remove_samples", 0, idx=[0.0, 0.99]), o("remove_samples", 0, idx=[])],
         [sv(0, 1.0), o("split_without_labels", 0), o("concatenate", 3, u=2), o("split_labels_join", 0), sr(0, 0.0, 1.0), rv(0)],
+        [o("copy", 0), sv(2, 1.0), o("move_boundaries_to_front", 2), o("copy", 1), sf(3, 2.0), o("move_boundaries_to_front", 1)],
+        [o("copy", 0), sr(2, 0.005, 0.995), o("move_boundaries_to_front", 2), rv(2), sr(0, 0.0, 1.0), o("copy", 0), sr(3, 0.0, 2.0), o("move_boundaries_to_front", 3)],
+        [o("split_pieces", 0, p=0.6), sr(2, 0.0, 1.0), o("move_boundaries_to_front", 2), rv(2), o("concatenate", 2, u=3)],
         [sv(0, 1.0), o("remove_samples", 0, idx=[0.0, 0.6]), sf(1, 2.0), o("split_pieces", 1, p=0.5), o("concatenate", 3, u=4)],
         [sr(0, 0.0, 1.0), sf(0, [2.0, 3.0, 0.5, -1.5][:d]), sv(0, [1.0, -2.0, 0.0, 4.0][:d]), sr(0, -1.0, 0.0), sf(0, [-0.5, 1.5, 2.0, 3.0][:d]), rv(0)],
     ]
